@@ -1,14 +1,31 @@
 """C07  Test-case file structure: phases, merging, inclusion, source locations.
 
-Kernels (DESIGN.md section 4, C07):
+Kernels (DESIGN.md section 4, C07; K6 and K7 were added while building the harness):
   K1  ParseSource: line / column / remaining-source bookkeeping under sequences of consume operations
       (text and counts symbolic) against a position-based model.
   K2  header / comment / empty line syntax (line symbolic) against regex-free predicates.
-  K5  act-phase un-escaping (line symbolic).
+  K5  act-phase un-escaping (line symbolic), through the real ActPhaseParser.
   K3  document level, character-symbolic: the real DocumentParserForSectionsConfiguration over a
       two-section configuration with the real standard element parser.
-  K4  the real test-case parser (test_case_parser.new_parser) on documents of symbolic line kinds
-      with inclusion fixtures on a real scratch directory  [selector].
+  K4  the program's own parsing glue (processors._Parser -> test_case_parser.new_parser) on files of symbolic
+      line kinds: A one file, all line kinds; B permutation of phase blocks (metamorphic: real vs real, plus
+      the reference reader); C inclusion graphs (one / two levels, sub-directory, cycles of length 1-3,
+      missing files, empty files) on a real scratch directory.  [selector]
+  K6  one instruction element, character-symbolic, through the same entry as K4: description, blank and comment
+      lines before the instruction, instruction name / argument split, error lines; and (form-feed family) lines
+      of white space other than space and tab.
+  K7  the same entry with the instruction set of the program itself (default INSTRUCTIONS_SETUP): a header line
+      always begins a new block - the file reads as its header-delimited blocks read one by one (metamorphic,
+      real vs real).  [selector]   Known finding region: C07-header-swallowed-by-instruction.
+
+Reference oracles: harness/_C07_ref.py (no exactly_lib import, no regular expressions).
+Notes on oracle choices that are not obvious from the property statement:
+  * the source lines of an act-phase element are the UN-ESCAPED lines (the same LineSequence is the act source);
+  * the source of an instruction element begins at the instruction name (description and leading space are not
+    part of it) and ends with its last line;
+  * a `description without instruction` error is reported on the last blank / comment line that follows the
+    description (or the description's first line if there is none);
+  * an error of an instruction's arguments is reported from the instruction name on, or as the whole first line.
 """
 from typing import List
 
@@ -189,9 +206,11 @@ def _k1_obligations(tier: str) -> List[Ob]:
             add(name, ops, maxlen)
         else:
             # partition: shorter texts | texts of full length by first character
+            # (quick tier: two-operation sequences with `consume` only on the shorter texts)
             add(name + ':shorter', ops, maxlen - 1)
-            for ch in K1_ALPHABET:
-                add(name + ':first=%r' % ch, ops, maxlen, prefix=ch, exact=True)
+            if tier != 'quick':
+                for ch in K1_ALPHABET:
+                    add(name + ':first=%r' % ch, ops, maxlen, prefix=ch, exact=True)
     obs.append(Ob(name='K1:seeded-oracle-error', fn='k1_parse_source',
                   case=dict(ops=('consume',), maxlen=3, oracle_bug=True), kernel='K1',
                   bound='seeded oracle error: line number not advanced at column 0', timeout=300,
@@ -283,7 +302,7 @@ _K2_NAMES = {'[': '[', ']': ']', 'a': 'a', ' ': 'space', '-': '-', '#': '#', '\t
 
 
 def _k2_obligations(tier: str) -> List[Ob]:
-    maxlen = 4 if tier == 'quick' else 6
+    maxlen = 4 if tier == 'quick' else 5
     obs = []
 
     def add(total, prefix, alphabet):
@@ -723,8 +742,9 @@ def _k4_obligations(tier: str) -> List[Ob]:
         obs.append(_k4_case_ob('K4:A:setup+2-lines:no-final-newline', {R: ['setup', K4_ALL, K4_ALL]}, nl=False))
         for first in K4_ALL:
             obs.append(_k4_case_ob('K4:A:3-lines:%s' % first, {R: [first, K4_ALL, K4_ALL]}))
+        sub = ('setup', 'act', 'unknown', 'comment', 'blank', 'i', 'm', 'eof', 'di', 'dclose', 'src', 'inc:missing')
         for second in K4_ALL:
-            obs.append(_k4_case_ob('K4:A:setup+3-lines:%s' % second, {R: ['setup', second, K4_ALL, K4_ALL]}))
+            obs.append(_k4_case_ob('K4:A:setup+3-lines:%s' % second, {R: ['setup', second, sub, sub]}))
     x = ('comment', 'blank', 'i', 'dclose', 'eof', 'assert')
     obs.append(_k4_case_ob('K4:A:description', {R: ['setup', ('d', 'dopen', 'di'), x, x]}))
     y = ('src', 'eof', 'assert', 'i', 'blank', 'comment')
@@ -774,10 +794,11 @@ def _k4_obligations(tier: str) -> List[Ob]:
         obs.append(_k4_case_ob('K4:C:empty-included-file', {R: [('setup', 'i'), 'inc:f1', ('i', 'blank')], F1: []}))
     else:
         rt = ('i', 'setup', 'assert', 'act', 'comment', 'inc:f1', 'inc:f2', 'inc:main', 'inc:missing', 'm', 'd')
-        ft = ('i', 'assert', 'act', 'src', 'unknown', 'comment', 'di', 'm', 'eof', 'inc:main', 'inc:f1', 'inc:f2', 'inc:missing')
+        ft = ('i', 'assert', 'act', 'src', 'unknown', 'm', 'eof', 'inc:main', 'inc:f1', 'inc:f2', 'inc:missing')
+        f1 = ('i', 'assert', 'act', 'src', 'unknown', 'comment', 'inc:main', 'inc:f1', 'inc:f2')
         g = ('i', 'cleanup', 'act', 'malformed', 'inc:up-f1', 'inc:up-main', 'inc:f2-self', 'inc:missing')
         for r0 in rt:
-            obs.append(_k4_case_ob('K4:C:one-level:%s' % r0, {R: [r0, 'inc:f1', rt], F1: [ft, ft], F2: ['i']}))
+            obs.append(_k4_case_ob('K4:C:one-level:%s' % r0, {R: [r0, 'inc:f1', rt], F1: [f1, f1], F2: ['i']}))
         for nl in (True, False):
             sfx = '' if nl else ':no-final-newline'
             obs.append(_k4_case_ob('K4:C:one-level:3-lines' + sfx, {R: ['setup', 'inc:f1', ('i', 'assert', 'inc:f1')],
@@ -1078,9 +1099,18 @@ def selftest(tier: str) -> int:
     return n
 
 
-ASSUMPTIONS = []
+ASSUMPTIONS = [
+    'K4 / K6: the instructions i and m of the five instruction phases are stand-ins written against the public '
+    'InstructionParser interface (the "programs" the property quantifies over); the element parsers, the dictionary '
+    'look-up, the description parser, the act-phase parser and the document parser are the real ones',
+    'K4 / K7: files are real files in a scratch directory written with open(..., "w"); the root file is named by an absolute path',
+    'K7: the oracle is the real parser itself on each header-delimited block (metamorphic); it presupposes only that a header '
+    'line begins a new block',
+    'K1: counts are bounded by (longest text) + 1 because the ValueError message formats the count',
+]
 
 OUTSIDE = [
     'preprocessing of the test-case file',
     'encodings other than what open() defaults to',
+    'documents longer than the stated numbers of characters / lines (no induction over the length)',
 ]
